@@ -778,6 +778,17 @@ val inventory_of : (string * nodeinfo res) list -> inventory -> inventory res
 
 val empty_inventory : inventory
 
+val sorted_insert :
+  string -> string -> (string * string) list -> (string * string) list
+
+val spec_key : value -> string option
+
+val spec_num : num -> string
+
+val spec_json : value -> string option
+
+val text_of : value -> string option
+
 val run_fuel : nat
 
 val merge_layers : yaml list -> mapping res
@@ -831,8 +842,18 @@ val lookup_info : string -> (string * nodeinfo) list -> nodeinfo option
 
 val canon_inventory : inventory -> string
 
+val is_ok : 'a1 res -> bool
+
+val canon_inv_result : (string * nodeinfo res) list -> string
+
 val run_inv : string list -> string
 
 val run_abs : string list -> string
 
 val run_line2 : string -> string
+
+val literalize : value -> value
+
+val run_textof : string list -> string
+
+val run_line3 : string -> string
